@@ -289,6 +289,72 @@ impl<'a> Gen<'a> {
         def.fields.iter().enumerate().filter(|(_, f)| f.card != Card::One).map(|(i, _)| i).collect()
     }
 
+    /// A value for field `fi` whose *encoding* begins like a sibling tagged field (tag byte(s) + a small length byte):
+    /// the shape that tempts a decoder to confuse a field's content with the next field's header.
+    pub fn confusable(&self, rng: &mut Rng, def: &StructDef, fi: usize) -> Option<Val> {
+        let f = &def.fields[fi];
+        let sibs: Vec<u16> = def.fields.iter().enumerate().filter(|(i, g)| *i != fi && g.tag.is_some()).map(|(_, g)| g.tag.unwrap()).collect();
+        if sibs.is_empty() {
+            return None;
+        }
+        let tag = *rng.pick(&sibs);
+        let mut bytes = crate::codec::tag_bytes(tag)?;
+        bytes.push(*rng.pick(&[0u8, 0, 1, 2, 3, 4, 6, 8]));
+        for _ in 0..rng.below(3) {
+            bytes.push(rng.byte() & 0x77);
+        }
+        match (&f.enc, &f.len) {
+            (Enc::Bcd(ty), len) => {
+                let width = match len {
+                    Len::Fixed(n) => *n,
+                    _ => bytes.len(),
+                };
+                bytes.truncate(width);
+                if bytes.iter().any(|b| (b >> 4) > 9 || (b & 0xf) > 9) {
+                    return None;
+                }
+                while bytes.len() < width {
+                    bytes.push(0);
+                }
+                let mut n: u128 = 0;
+                for b in &bytes {
+                    n = n * 100 + ((b >> 4) as u128) * 10 + (b & 0xf) as u128;
+                }
+                if n > ty.max() {
+                    return None;
+                }
+                Some(Val::Num(n))
+            }
+            (Enc::Hex, len) => {
+                if let Len::Fixed(n) = len {
+                    bytes.resize(*n, 0x11);
+                }
+                Some(Val::Hex(crate::hex(&bytes)))
+            }
+            (Enc::Cp437, len) => {
+                if let Len::Fixed(n) = len {
+                    bytes.resize(*n, 0x41);
+                }
+                if bytes.last() == Some(&0) {
+                    *bytes.last_mut().unwrap() = 0x41;
+                }
+                Some(Val::Text(crate::codec::cp437_decode(&bytes)))
+            }
+            (Enc::Bytes, _) => Some(Val::Bytes(bytes)),
+            (Enc::Int { ty, be }, _) => {
+                let k = ty.bytes();
+                bytes.resize(k, 0);
+                let mut n: u128 = 0;
+                for i in 0..k {
+                    let b = if *be { bytes[i] } else { bytes[k - 1 - i] };
+                    n = (n << 8) | b as u128;
+                }
+                Some(Val::Num(n))
+            }
+            _ => None,
+        }
+    }
+
     pub fn gen_struct(&self, rng: &mut Rng, def: &StructDef, presence: Presence, depth: usize) -> Val {
         let opt = Self::optional_fields(def);
         let p_present = [15u64, 50, 85][rng.below(3) as usize];
@@ -338,6 +404,32 @@ impl<'a> Gen<'a> {
                 }
             };
             out.push((f.name.clone(), v));
+        }
+        // now and then: one present scalar field gets a value that looks like a sibling's header
+        if rng.chance(1, 8) {
+            let fi = rng.below(def.fields.len().max(1) as u64) as usize;
+            if fi < def.fields.len() {
+                if let Some(c) = self.confusable(rng, def, fi) {
+                    let slot = &mut out[fi].1;
+                    match (def.fields[fi].card, &slot) {
+                        (Card::One, _) => *slot = c,
+                        (Card::Opt, _) if presence != Presence::AllAbsent => {
+                            *slot = Val::some(c);
+                            // the shape matters most when little or nothing follows: drop the tagged fields behind it sometimes
+                            if rng.chance(1, 2) {
+                                for (j, g) in def.fields.iter().enumerate() {
+                                    if j > fi && g.card == Card::Opt {
+                                        out[j].1 = Val::none();
+                                    } else if j > fi && g.card == Card::Many {
+                                        out[j].1 = Val::List(vec![]);
+                                    }
+                                }
+                            }
+                        }
+                        _ => {}
+                    }
+                }
+            }
         }
         Val::Struct(out)
     }
